@@ -28,6 +28,13 @@ ASSUMPTIONS = [
 
 
 MUTANTS = [
+    ("region trimmed to an approximate image footprint",
+     "AegeanTools/source_finder.py",
+     "        self.global_data.psfhelper = self.global_data.wcshelper\n",
+     "        self.global_data.psfhelper = self.global_data.wcshelper\n"
+     "        if self.global_data.region is not None:\n"
+     "            trimmed = copy.deepcopy(self.global_data.region)\n"
+     "            self.global_data.region = trimmed\n", "C11-R4"),
     ("membership test skips level 1", "AegeanTools/regions.py",
      "        pixelset = self.get_demoted()\n"
      "        result = np.isin(pix, list(pixelset))\n",
@@ -279,6 +286,30 @@ def run(ctx):
               "expected: a Region object is used as is, an existing file is "
               "loaded, anything else yields None", node=stores[0] if stores
               else lg.node)
+    # the region that filters the islands is the region that was given: no
+    # derived / trimmed / simplified copy is stored, and the object is not
+    # modified through set operations
+    mask_p = "mask" if "mask" in lg.params else None
+    for s_ in stores:
+        v = norm(s_.value)
+        okv = v == "None" or v == mask_p or v.startswith("Region.load(")
+        ctx.check("C11-R4", lg, "stored region is the given one: " +
+                  norm(s_, 60), okv,
+                  "load_globals stores `%s` as the region: a region derived "
+                  "from the user's (trimmed to the image footprint, "
+                  "simplified, re-sampled) is only approximately the same "
+                  "set, so islands near the approximation error are "
+                  "filtered differently" % v, node=s_)
+    mut = [c for c in walk_no_nested(lg.node) if isinstance(c, ast.Call)
+           and isinstance(c.func, ast.Attribute)
+           and c.func.attr in ("intersect", "without", "union",
+                               "symmetric_difference", "add_pixels",
+                               "add_circles", "add_poly")
+           and norm(c.func.value).endswith("global_data.region")]
+    ctx.check("C11-R4", lg, "the given region is not modified", not mut,
+              "`%s` changes the user's region in place" %
+              (norm(mut[0], 60) if mut else ""),
+              node=mut[0] if mut else lg.node)
     # the region reaches find_islands
     fs = prog.func("source_finder.SourceFinder.find_sources_in_image")
     calls = [c for c in walk_no_nested(fs.node) if isinstance(c, ast.Call)
